@@ -146,6 +146,18 @@ fn streams() -> Vec<StreamDef> {
         let (bytes, built) = cat(&[(Some(m), garbage(6, 1)), (Some(shape(&st, 31, 3, 0, 2, 1)), vec![])]);
         v.push(StreamDef { name, bytes, built, lookahead_case: mk >= 65532 });
     }
+    // S9 maximum-size messages containing a marker, followed directly by valid messages (the next marker is the only
+    // look-ahead the parser can get: exactly 4 bytes when the window holds the minimum look-ahead)
+    for (name, mk) in [("max_embedded_marker_then_msgs", 65535usize), ("len65534_embedded_marker_then_msgs", 65534)] {
+        let mut m = shape(&st, 0, 0, 0, 1, 0);
+        let plen = mk - m.hdr_size();
+        let mut p = payload_bytes(plen, 1);
+        p[100..104].copy_from_slice(b"DLT\x01");
+        p[plen - 40..plen - 36].copy_from_slice(b"DLT\x01");
+        m.payload = p;
+        let (bytes, built) = cat(&[(Some(shape(&st, 31, 3, 0, 0, 0)), vec![]), (Some(m), vec![]), (Some(shape(&st, 31, 3, 0, 2, 1)), vec![]), (Some(shape(&st, UEH, 1, 1, 3, 2)), vec![])]);
+        v.push(StreamDef { name, bytes, built, lookahead_case: false });
+    }
     v
 }
 
@@ -723,7 +735,7 @@ impl Prop for C04 {
         Meta {
             id: "C04",
             level: "model_checking",
-            rule: "(1) chunking: 11 byte streams (incl. serial framing with minimal 8..18 byte messages, maximum-size messages, embedded frame markers, 3 x capacity totals, serial framing, long garbage) x capacities {low+4096, low+4097, 512 KiB} (low = DLT_MIN_PARSER_LOOKAHEAD_SIZE, what the production call sites pass) x read-size schedules of a scripted source (constant k for 12-16 values incl. 1 and 65550..65556, every single deviation 'call #i returns 1 / half / asked-1 bytes' for i < 12, every pair of deviations, 3 cyclic patterns): DltMessageIterator over LowMarkBufReader must yield the same messages and counters as over the whole slice; every whole-message suffix parses to the tail; family garbage_windows: 3 messages + a marker-free region (two kinds: 0xFF and repeated 'DLT') + 2 messages, the region's length swept around the parser's look-ahead and around the end of the first buffer-full of each small capacity (17+13+13 lengths, thorough 49+29+29) x the capacities x 6 read schedules (unlimited, 1 byte, 4096, 65551, two cyclic). (2) reader alone: explicit-state BFS by re-execution over 19 operations (fill_buf, 4 consumes, 4 reads, 10 seeks with state-relative targets) from the initial state, per (capacity, low mark, data length, source schedule) configuration, states deduplicated on (pos, abs_pos, cap, empty_last_read, source call phase, model cursor, hash of the buffered bytes), plus an undeduplicated depth-4/5 tree. Oracle = byte vector + one cursor: bytes handed out / buffered equal the source's at the cursor, fill_buf returns >= min(low mark, remaining) and is empty only at the true end, seeks to targets inside the currently buffered range succeed, successful seeks re-deliver the source's bytes.".into(),
+            rule: "(1) chunking: 13 byte streams (incl. serial framing with minimal 8..18 byte messages, maximum-size messages, embedded frame markers, 3 x capacity totals, serial framing, long garbage) x capacities {low+4096, low+4097, 512 KiB} (low = DLT_MIN_PARSER_LOOKAHEAD_SIZE, what the production call sites pass) x read-size schedules of a scripted source (constant k for 12-16 values incl. 1 and 65550..65556, every single deviation 'call #i returns 1 / half / asked-1 bytes' for i < 12, every pair of deviations, 3 cyclic patterns): DltMessageIterator over LowMarkBufReader must yield the same messages and counters as over the whole slice; every whole-message suffix parses to the tail; family garbage_windows: 3 messages + a marker-free region (two kinds: 0xFF and repeated 'DLT') + 2 messages, the region's length swept around the parser's look-ahead and around the end of the first buffer-full of each small capacity (17+13+13 lengths, thorough 49+29+29) x the capacities x 6 read schedules (unlimited, 1 byte, 4096, 65551, two cyclic). (2) reader alone: explicit-state BFS by re-execution over 19 operations (fill_buf, 4 consumes, 4 reads, 10 seeks with state-relative targets) from the initial state, per (capacity, low mark, data length, source schedule) configuration, states deduplicated on (pos, abs_pos, cap, empty_last_read, source call phase, model cursor, hash of the buffered bytes), plus an undeduplicated depth-4/5 tree. Oracle = byte vector + one cursor: bytes handed out / buffered equal the source's at the cursor, fill_buf returns >= min(low mark, remaining) and is empty only at the true end, seeks to targets inside the currently buffered range succeed, successful seeks re-deliver the source's bytes.".into(),
             assumptions: vec!["fingerprint argument: the reader's control flow depends only on its numeric fields and the source state; buffered content is hashed in; the undeduplicated tree cross-checks small depths".into(),
                 "consume(n) is only called with n <= buffered bytes (BufRead contract)".into()],
             budget_s: (120, 1200),
